@@ -110,25 +110,21 @@ def one(beh, res, clause, kinds, bi=0):
         for step, (act, model) in enumerate(zip(hist, beh["states"]), start=1):
             a = objs[act["a"] - 1]
             op = act["op"]
+            opk = {"copy-kw": "copy", "copy-same": "copy", "copyconv-same": "copyconv"}.get(op, op)      # the contract does not tell the doors apart
             data = {"hist": hist[:step], "how": "harness/statevector_replay.py replays the actions on real objects"}
             raised = None
             try:
-                # the three doors of copy(): no argument / form= and frame= / same=<an object whose form and frame are to be taken>,
-                # used in turn (the target of same= is a throw-away state of the wanted form and frame)
-                door = (bi + step) % 3
+                # the doors of copy() are part of the behaviour (StateVector.tla CopyDoors / CopyConvDoors)
                 if op == "copy":
-                    if door == 0:
-                        objs.append(a.copy(same=StateVector(np.asarray(a, float), DATE, a.form, a.frame)))
-                    elif door == 1:
-                        objs.append(a.copy(form=a.form.name, frame=a.frame.name))
-                    else:
-                        objs.append(a.copy())
+                    objs.append(a.copy())
+                elif op == "copy-kw":
+                    objs.append(a.copy(form=a.form.name, frame=a.frame.name))
+                elif op == "copy-same":
+                    objs.append(a.copy(same=StateVector(np.asarray(a, float), DATE, a.form, a.frame)))
                 elif op == "copyconv":
-                    if door == 0:
-                        tgt = StateVector(KEP, DATE, "keplerian", "EME2000").copy(form=act["x"], frame=act["y"])
-                        objs.append(a.copy(same=tgt))
-                    else:
-                        objs.append(a.copy(form=act["x"], frame=act["y"]))
+                    objs.append(a.copy(form=act["x"], frame=act["y"]))
+                elif op == "copyconv-same":
+                    objs.append(a.copy(same=StateVector(KEP, DATE, "keplerian", "EME2000").copy(form=act["x"], frame=act["y"])))
                 elif op == "setform":
                     a.form = act["x"]
                 elif op == "setframe":
@@ -202,7 +198,7 @@ def one(beh, res, clause, kinds, bi=0):
             res["evaluations"] += 1
             kinds.add(op)
             want_raise = model["last"] == "raise"
-            clause("operations succeed / fail as the contract says", (raised is not None) == want_raise, f"sv/outcome[{op}]",
+            clause("operations succeed / fail as the contract says", (raised is not None) == want_raise, f"sv/outcome[{opk}]",
                    f"{act}: raised={raised}, expected raise={want_raise}", data)
             if (raised is not None) != want_raise:
                 ok_all = False
@@ -218,11 +214,11 @@ def one(beh, res, clause, kinds, bi=0):
                 cov_ok = (p["cov"] is None) == (not mcov["present"])
                 if cov_ok and mcov["present"]:
                     cov_ok = p["cov"]["fr"] == mcov["fr"] and abs(p["cov"]["tr"] - covtr[mcov["ver"]]) <= 1e-8 * covtr[mcov["ver"]]
-                acted = k == act["a"] or k == len(objs) and op in ("copy", "copyconv", "pickle", "asorbit", "assv")
+                acted = k == act["a"] or k == len(objs) and opk in ("copy", "copyconv", "pickle", "asorbit", "assv")
                 if want_raise:
                     key = "sv/failed-change-not-atomic" if k == act["a"] else "sv/interference"
                 else:
-                    key = f"sv/effect[{op}]" if acted else "sv/interference"
+                    key = f"sv/effect[{opk}]" if acted else "sv/interference"
                 checks = [("kind", p["kind"] == m["kind"]), ("form", p["form"] == m["form"]), ("frame", p["frame"] == m["frame"]),
                           ("values", bool(same_val)), ("maneuvers", p["nmans"] == m["nmans"]), ("list metadata", p["lst"] == m["lst"]),
                           ("scalar metadata", p["scal"] == m["scal"]), ("covariance", bool(cov_ok)),
